@@ -60,7 +60,13 @@ func c11RunLevel(e *env) {
 					res["ok"], res["why"] = false, why
 				}
 			}
-			env := newC15EnvIdle(10*time.Second, c.Stacking)
+			var env *c15Env
+			if c.When == "limits-far" {
+				// the defaults are seconds long: a stalled peer is cut by nothing but the shutdown itself
+				env = newC15EnvLimits(10*time.Second, 8*time.Second, 8*time.Second, 8*time.Second, c.Stacking)
+			} else {
+				env = newC15EnvIdle(10*time.Second, c.Stacking)
+			}
 			f := env.fwds[c.Stacking]
 			defer env.origin.close()
 			defer env.originTLS.close()
@@ -221,6 +227,9 @@ type c11Conn struct {
 	responses     int
 	forwarded     int
 	replyCh       chan struct{}
+	finishCh      chan struct{} // the origin sends the end of its body
+	inBody        chan struct{} // signalled when the proxy starts copying the body (the head has been dealt with)
+	replied       bool          // the head has been released, the end of the body not yet
 	inRT          chan struct{} // signalled when the round tripper is entered
 	closedByProxy chan struct{}
 	vanished      bool
@@ -263,8 +272,37 @@ func (rt gateRT) RoundTrip(req *http.Request) (*http.Response, error) {
 	body := "reply-" + name
 	return &http.Response{StatusCode: 200, Status: "200 OK", Proto: "HTTP/1.1", ProtoMajor: 1, ProtoMinor: 1,
 		Header: http.Header{"Content-Type": {"text/plain"}}, ContentLength: int64(len(body)),
-		Body: io.NopCloser(strings.NewReader(body)), Request: req}, nil
+		Body: &gatedBody{c: c, parts: []string{"reply-", name}}, Request: req}, nil
 }
+
+// gatedBody: the first part of the body is there with the head, the rest when the harness says so.
+type gatedBody struct {
+	c     *c11Conn
+	parts []string
+	n     int
+}
+
+func (b *gatedBody) Read(p []byte) (int, error) {
+	switch b.n {
+	case 0:
+		select {
+		case b.c.inBody <- struct{}{}:
+		default:
+		}
+	case 1:
+		<-b.c.finishCh
+	default:
+		return 0, io.EOF
+	}
+	k := copy(p, b.parts[b.n])
+	if k < len(b.parts[b.n]) {
+		b.parts[b.n] = b.parts[b.n][k:]
+		return k, nil
+	}
+	b.n++
+	return k, nil
+}
+func (b *gatedBody) Close() error { return nil }
 
 func c11Run(e *env) {
 	var traceF *os.File
@@ -341,7 +379,7 @@ func c11Scenario1(idx int, acts []c11Action) (map[string]any, []map[string]any) 
 		default:
 		}
 		cli, srv := net.Pipe()
-		c := &c11Conn{name: name, client: cli, replyCh: make(chan struct{}, 4), inRT: make(chan struct{}, 4), closedByProxy: make(chan struct{})}
+		c := &c11Conn{name: name, client: cli, replyCh: make(chan struct{}, 4), finishCh: make(chan struct{}, 4), inBody: make(chan struct{}, 4), inRT: make(chan struct{}, 4), closedByProxy: make(chan struct{})}
 		sc := &srvConn{Conn: srv, name: name, onClose: func(n string) { s.log("sockclosed", "c", n); close(c.closedByProxy) }}
 		s.mu.Lock()
 		s.conns[name] = c
@@ -425,8 +463,25 @@ func c11Scenario1(idx int, acts []c11Action) (map[string]any, []map[string]any) 
 			if !pending {
 				continue
 			}
+			if c.replied {
+				continue
+			}
 			s.log("reply", "c", a.C)
 			c.replyCh <- struct{}{}
+			c.replied = true
+			// the proxy deals with the head (its closing check included) and starts on the body
+			select {
+			case <-c.inBody:
+			case <-c.closedByProxy:
+			case <-time.After(300 * time.Millisecond):
+			}
+		case "finish":
+			if c == nil || !c.replied {
+				continue
+			}
+			c.replied = false
+			s.log("finish", "c", a.C)
+			c.finishCh <- struct{}{}
 			// wait for the response (or the close after a vanished client)
 			deadline := time.After(2 * time.Second)
 		wait:
@@ -453,6 +508,7 @@ func c11Scenario1(idx int, acts []c11Action) (map[string]any, []map[string]any) 
 				select {
 				case <-c.closedByProxy:
 				case <-time.After(2 * time.Second):
+					s.log("parked", "c", a.C) // observation: the connection went back to waiting for a request
 					fail("connection " + a.C + " not closed after its response although shutdown had begun")
 				}
 			}
@@ -546,8 +602,17 @@ func c11Scenario1(idx int, acts []c11Action) (map[string]any, []map[string]any) 
 	// wind down: answer outstanding round trips, let Shutdown finish (or expire), close
 	for _, c := range s.conns {
 		if c.forwarded > 0 {
-			s.log("reply", "c", c.name)
-			c.replyCh <- struct{}{}
+			if !c.replied {
+				s.log("reply", "c", c.name)
+				c.replyCh <- struct{}{}
+				select {
+				case <-c.inBody:
+				case <-c.closedByProxy:
+				case <-time.After(300 * time.Millisecond):
+				}
+			}
+			s.log("finish", "c", c.name)
+			c.finishCh <- struct{}{}
 		}
 	}
 	time.Sleep(50 * time.Millisecond)
